@@ -36,6 +36,7 @@ func checkC17(ctx *Ctx, r *Report) {
 	c17CopyOnWriteAppends(ctx, r)
 	c17ArgumentUsesThroughEnvelopes(ctx, r)
 	c17PathPrefixThroughArrays(ctx, r)
+	c17RebuiltOptionKeepsArguments(ctx, r)
 	c17RenameArgumentsCovers(ctx, r)
 	c17MergedPathsPrefixed(ctx, r)
 	c03MapOrderIn(ctx, r, []string{"internal/veneers"})
@@ -1776,4 +1777,65 @@ func c17PathPrefixThroughArrays(ctx *Ctx, r *Report) {
 	}
 	r.Count("option actions extending an assignment path with struct fields", n)
 	r.Floor("option actions extending an assignment path with struct fields", 2)
+}
+
+// c17RebuiltOptionKeepsArguments: an action that builds a new option from scratch around the path of an assignment of
+// the original option (`ast.Option{…, Assignments: …option.Assignments[i].Path…}`) must give it arguments: the path
+// can hold index arguments (`flags[key]` after map_to_index). A literal without an `Args` entry declares none.
+func c17RebuiltOptionKeepsArguments(ctx *Ctx, r *Report) {
+	p := ctx.Pkg("internal/veneers/option")
+	optT := ctx.LookupType("internal/ast", "Option")
+	if p == nil || optT == nil {
+		r.Undecided("anchor lost: internal/veneers/option / ast.Option")
+		return
+	}
+	info := p.TypesInfo
+	n := 0
+	for _, f := range p.Syntax {
+		for _, d := range f.Decls {
+			fd, ok := d.(*ast.FuncDecl)
+			if !ok || fd.Body == nil {
+				continue
+			}
+			fobj, _ := info.Defs[fd.Name].(*types.Func)
+			seen := 0
+			ast.Inspect(fd.Body, func(m ast.Node) bool {
+				cl, ok := m.(*ast.CompositeLit)
+				if !ok || namedOf(info.TypeOf(cl)) != optT {
+					return true
+				}
+				hasArgs, reusesPath := false, false
+				for _, el := range cl.Elts {
+					kv, ok := el.(*ast.KeyValueExpr)
+					if !ok {
+						continue
+					}
+					k, _ := kv.Key.(*ast.Ident)
+					if k == nil {
+						continue
+					}
+					if k.Name == "Args" {
+						hasArgs = true
+					}
+					if k.Name == "Assignments" {
+						txt := exprString(kv.Value)
+						if strings.Contains(txt, "ssignments[") && strings.Contains(txt, ".Path") {
+							reusesPath = true
+						}
+					}
+				}
+				if !reusesPath {
+					return true
+				}
+				n++
+				seen++
+				cons := fmt.Sprintf("%s option literal #%d", ctx.FuncName(fobj), seen)
+				r.Check(hasArgs, "effects/rebuilt-option-keeps-arguments", cons, cl.Pos(), "the option built around the original path is given arguments",
+					"the new option reuses the path of an assignment of the original option and declares no argument: an index argument held by that path (`flags[key]` after map_to_index) is read without being declared")
+				return true
+			})
+		}
+	}
+	r.Count("options rebuilt around an existing assignment path", n)
+	r.Floor("options rebuilt around an existing assignment path", 2)
 }
